@@ -123,3 +123,18 @@ Proof.
   pose proof (bytes_to_binary_length (binary_to_bytes s le) le (binary_to_bytes_bytes s le)) as Hl.
   rewrite E, Hs in Hl. lia.
 Qed.
+
+Lemma skipn_skipn' {A} (x y : nat) (l : list A) : skipn x (skipn y l) = skipn (x + y) l.
+Proof.
+  revert l; induction y as [|y IH]; intros l.
+  - now rewrite Nat.add_0_r.
+  - destruct l as [|h t]; [now rewrite !skipn_nil|].
+    rewrite Nat.add_succ_r. cbn [skipn]. apply IH.
+Qed.
+
+Lemma slice_slice o1 n1 o2 n2 (b : block) : (o2 + n2 <= n1)%nat ->
+  slice o2 n2 (slice o1 n1 b) = slice (o1 + o2) n2 b.
+Proof.
+  intros H. unfold slice. rewrite skipn_firstn_comm, firstn_firstn, skipn_skipn'.
+  replace (Nat.min n2 (n1 - o2)) with n2 by lia. now rewrite (Nat.add_comm o2 o1).
+Qed.
